@@ -34,9 +34,9 @@ ASSUMPTIONS = [
     'given to the model is the kernel\'s own float64 output converted exactly to rationals',
     'numpy argmin/min/unique/where follow their documented semantics (first minimum, ascending unique); '
     'the model fuses where+argmin+index-back into one first-minimal-member scan',
-    'mdtraj loads what it saved (batch_reassign cases); rmsd values are compared with 1e-4 tolerance '
-    'against an independent numpy Kabsch oracle and exactly against the model only when the per-batch '
-    'and whole-data rmsd floats coincide',
+    'mdtraj loads what it saved (batch_reassign cases); the oracle for batch_reassign is the brute-force '
+    'minimum over md.rmsd values computed on the whole data set without batching (float32 kernel, 1e-5 '
+    'tolerance); the model is compared exactly only when per-batch and whole-data rmsd floats coincide',
     'batch_size of batch_reassign is steered through frac_mem (real argument); the RAM size is read from psutil',
 ]
 TRUSTED_EXTRA = ['numpy 2.4 / mdtraj 1.11 as installed in /venv for the oracles']
@@ -698,20 +698,6 @@ def do_batches(ctx, case):
     return req, compare
 
 
-def kabsch_rmsd(P, Q):
-    """independent RMSD after optimal superposition (numpy, float64)"""
-    P = np.asarray(P, dtype=np.float64)
-    Q = np.asarray(Q, dtype=np.float64)
-    P = P - P.mean(axis=0)
-    Q = Q - Q.mean(axis=0)
-    H = P.T @ Q
-    U, S, Vt = np.linalg.svd(H)
-    sgn = np.sign(np.linalg.det(U @ Vt))
-    S[-1] *= sgn
-    e = (P ** 2).sum() + (Q ** 2).sum() - 2 * S.sum()
-    return float(np.sqrt(max(e, 0.0) / len(P)))
-
-
 def do_reassign(ctx, case):
     import mdtraj as md
     import psutil
@@ -761,9 +747,13 @@ def do_reassign(ctx, case):
                               % (type(e).__name__, lens, b), case,
                               key=KEY_BATCH if (first_full and isinstance(e, IndexError)) else None)
             return None
+        # oracle: brute-force minimum over the metric's own values (md.rmsd of every frame of the
+        # whole data set to every center, one call per center, no batching)
         allxyz = np.concatenate(coords)
         n = len(allxyz)
-        O = np.array([[kabsch_rmsd(allxyz[f], cxyz[c]) for c in range(k)] for f in range(n)])
+        whole = md.Trajectory(allxyz.copy(), top)
+        whole.center_coordinates()
+        T = np.stack([md.rmsd(whole, c, precentered=True) for c in centers], axis=1).astype(np.float64)
         what = None
         if [len(x) for x in A] != lens or [len(x) for x in Dd] != lens:
             what = 'per-trajectory pieces have lengths %s, trajectories have %s' % ([len(x) for x in A], lens)
@@ -771,17 +761,13 @@ def do_reassign(ctx, case):
             a = np.concatenate([np.asarray(x) for x in A])
             d = np.concatenate([np.asarray(x) for x in Dd])
             for f in range(n):
-                m = O[f].min()
-                if not (0 <= a[f] < k) or abs(O[f, int(a[f])] - m) > 1e-4 or abs(d[f] - m) > 1e-4:
+                m = T[f].min()
+                if not (0 <= a[f] < k) or abs(T[f, int(a[f])] - m) > 1e-5 or abs(d[f] - m) > 1e-5:
                     what = 'frame %d: label %d distance %r, minimal distance %r' % (f, a[f], d[f], m)
                     break
         if what:
             ctx.violation('batch_reassign: ' + what, case)
             return None
-        # exact table for the model: whole-data rmsd with the same kernel
-        whole = md.Trajectory(allxyz.copy(), top)
-        whole.center_coordinates()
-        T = np.stack([md.rmsd(whole, c, precentered=True) for c in centers], axis=1).astype(np.float64)
         if any(T[f, int(a[f])] != d[f] for f in range(n)) or \
                 any(np.sort(T[f])[0] == np.sort(T[f])[min(1, k - 1)] and k > 1 for f in range(n)):
             ctx.skip('reassign: float rmsd differs between batch and whole-data call, or float tie')
